@@ -42,6 +42,7 @@ class Scenario:
         ok = R.req("PUT", "/" + bk, headers={"x-amz-bucket-object-lock-enabled": "true"}).status == 200
         ok &= R.req("PUT", "/" + bk, query={"policy": ""}, body=policy(bk)).status in (200, 204)
         ok &= R.req("PUT", "/%s/other" % bk, body=OTHER).status == 200
+        ok &= R.req("PUT", "/%s/%s.bak" % (bk, self.key), body=OTHER).status == 200          # a source whose name extends the protected key's
         pr = self.protection
         if pr.startswith("default-"):
             mode = "COMPLIANCE" if pr.endswith("compliance") else "GOVERNANCE"
@@ -110,6 +111,7 @@ def attacks(sc, bypass_hdr):
     A.append(("overwrite", lambda c: c.req("PUT", path, body=OTHER, headers=bh)))
     A.append(("overwrite-with-lock-headers", lambda c: c.req("PUT", path, body=OTHER, headers=dict(bh, **{"x-amz-object-lock-mode": "GOVERNANCE", "x-amz-object-lock-retain-until-date": soon}))))
     A.append(("copy-onto", lambda c: c.req("PUT", path, headers=dict(bh, **{"x-amz-copy-source": "%s/other" % bk}))))
+    A.append(("copy-onto-from-extended-name", lambda c: c.req("PUT", path, headers=dict(bh, **{"x-amz-copy-source": "%s/%s.bak" % (bk, key)}))))
     A.append(("self-copy-replace", lambda c: c.req("PUT", path, headers=dict(bh, **{"x-amz-copy-source": "%s/%s" % (bk, key), "x-amz-metadata-directive": "REPLACE", "x-amz-meta-x": "y"}))))
 
     def mpu(c):
@@ -145,7 +147,7 @@ def run(chk):
     chk.rule = ("a case is (protection, bucket kind, caller, bypass header, destructive request): protection in {legal hold, COMPLIANCE, GOVERNANCE, COMPLIANCE set by "
                 "PutObject headers, bucket default COMPLIANCE / GOVERNANCE, hold+GOVERNANCE} x {versioned lock bucket, unversioned lock bucket (gateway "
                 "without a versioning directory)} x {root, admin, owner, user, user holding s3:BypassGovernanceRetention} x {with, without the bypass "
-                "header} x 20 destructive requests (overwrite, overwrite with lock headers, copy onto, self-copy, multipart completion onto, delete, "
+                "header} x 21 destructive requests (overwrite, overwrite with lock headers, copy onto (also from a source whose name extends the key's), self-copy, multipart completion onto, delete, "
                 "delete by version, batch deletes, delete bucket, retention shorten / downgrade / empty, lock configuration disable / no rule / other "
                 "rule, suspend versioning, delete policy); after each request the protected version is read back (by version id where versioned) "
                 "and its retention and hold are read; thorough tier adds random sequences. Non-trivial: every case (each targets a protected "
